@@ -398,7 +398,7 @@ Definition hdr_pre (h : bytes) : Prop :=
 Theorem eat_AB_misplaced sofar p x c :
   blen sofar < 64 -> 64 <= blen (sofar ++ c) -> hdr_pre (bslice 0 512 (sofar ++ c)) ->
   vmdk_desc_sec (bslice 0 512 (sofar ++ c)) * 512 <> 512 ->
-  exists s', eat_chunk vmdk_fmt (stA sofar p x) c = (s', Some ImageFormatError).
+  exists s', eat_chunk vmdk_fmt (stA sofar p x) c = (s', Some ImageFormatError) /\ i_ext s' = x /\ In K_descriptor (i_checks s').
 Proof.
   intros Hs Hl [Hsig Hver] Hsec. set (hd := bslice 0 512 (sofar ++ c)) in *.
   assert (Hhd : 64 <= blen hd) by (unfold hd; rewrite blen_bslice; lia).
@@ -417,8 +417,9 @@ Proof.
   unfold VMDK_SECTOR_A, VMDK_DESC_OFFSET.
   replace (vmdk_desc_sec hd * 512 =? 512) with false by lia. cbn [negb].
   destruct ((vmdk_gd hd =? VMDK_GD_AT_END) && _).
-  - cbn [new_region has_region rhas rget i_regs rname_beq add_check i_checks mem_cname cname_beq orb]. eexists. reflexivity.
-  - eexists. reflexivity.
+  - cbn [new_region has_region rhas rget i_regs rname_beq add_check i_checks mem_cname cname_beq orb]. eexists.
+    split; [reflexivity|]. split; [reflexivity|]. left. reflexivity.
+  - eexists. split; [reflexivity|]. split; [reflexivity|]. left. reflexivity.
 Qed.
 
 (* ---------- prefixes ---------- *)
@@ -581,7 +582,8 @@ Qed.
 Lemma step_A sofar s c rest : b = (sofar ++ c) ++ rest -> InvA sofar s ->
   (vmdk_desc_sec b * 512 = 512 -> exists s', eat_chunk vmdk_fmt s c = (s', None) /\ (InvA (sofar ++ c) s' \/ InvB (sofar ++ c) s')) /\
   (vmdk_desc_sec b * 512 <> 512 ->
-     (exists s', eat_chunk vmdk_fmt s c = (s', None) /\ InvA (sofar ++ c) s') \/ (exists s' e, eat_chunk vmdk_fmt s c = (s', Some e))).
+     (exists s', eat_chunk vmdk_fmt s c = (s', None) /\ InvA (sofar ++ c) s') \/
+     (exists s' e, eat_chunk vmdk_fmt s c = (s', Some e) /\ v_vmdktype (i_ext s') = VMDK_NOTFOUND /\ In K_descriptor (i_checks s'))).
 Proof.
   intros Hb [p [x [-> [Hs [Hp4 [Hpp Hx]]]]]].
   destruct (N.lt_ge_cases (blen (sofar ++ c)) 64) as [Hsmall|Hbig].
@@ -617,10 +619,10 @@ Proof.
       * rewrite bskip_app_ge by lia. replace (blen sofar - blen sofar) with 0 by lia. rewrite bskip_0. reflexivity.
       * rewrite blen_app, !flen_blen. reflexivity.
     + right.
-      destruct (eat_AB_misplaced sofar p x c Hs Hbig) as [s' He].
+      destruct (eat_AB_misplaced sofar p x c Hs Hbig) as [s' [He [Hext Hchk]]].
       * unfold hdr_pre. fold hd. rewrite F1, F2. auto.
       * fold hd. rewrite F3. exact Hsec.
-      * exists s', ImageFormatError. exact He.
+      * exists s', ImageFormatError. split; [exact He|]. split; [rewrite Hext; exact Hx|exact Hchk].
 Qed.
 
 (* one chunk, phase B *)
@@ -656,13 +658,108 @@ Proof.
 Qed.
 
 Lemma run_misplaced : vmdk_desc_sec b * 512 <> 512 -> forall cs sofar s, b = sofar ++ concat cs ->
-  InvA sofar s -> exists s' e, eat_all vmdk_fmt s cs = (s', Some e).
+  InvA sofar s -> exists s' e, eat_all vmdk_fmt s cs = (s', Some e) /\ v_vmdktype (i_ext s') = VMDK_NOTFOUND /\ In K_descriptor (i_checks s').
 Proof.
   intros Hsec. induction cs as [|c cs IH]; intros sofar s Hb HA; cbn [eat_all concat] in *.
   - rewrite app_nil_r in Hb. subst sofar. destruct HA as [p [x [_ [Hs _]]]]. lia.
   - assert (Hb' : b = (sofar ++ c) ++ concat cs) by (rewrite <- app_assoc; exact Hb).
-    destruct (proj2 (step_A sofar s c (concat cs) Hb' HA) Hsec) as [[s' [He Hi']]|[s' [e He]]].
+    destruct (proj2 (step_A sofar s c (concat cs) Hb' HA) Hsec) as [[s' [He Hi']]|[s' [e [He Hrest]]]].
     + rewrite He. apply (IH (sofar ++ c) s' Hb' Hi').
-    + rewrite He. exists s', e. reflexivity.
+    + rewrite He. exists s', e. split; [reflexivity|exact Hrest].
 Qed.
 End Run.
+
+(* ---------- reading the final state ---------- *)
+Definition finB (hd : bytes) (fo : option (N * bytes)) (size : N) (sofar : bytes) (x : vx) : ist vx :=
+  mkIst (blen sofar)
+        (match fo with
+         | Some (off, fd) => [(R_header, hreg hd); (R_footer, set_fin (freg off fd) true); (R_descriptor, dreg 3 size (bslice 512 size sofar))]
+         | None => [(R_header, hreg hd); (R_descriptor, dreg 2 size (bslice 512 size sofar))]
+         end)
+        (match fo with Some _ => 4%nat | None => 3%nat end) true
+        (match fo with Some _ => [K_descriptor; K_footer] | None => [K_descriptor] end) x.
+
+Lemma finish_stB hd fo size sofar x : Insp_Engine.finish (stB hd fo size sofar x) = finB hd fo size sofar x.
+Proof. destruct fo as [[off fd]|]; reflexivity. Qed.
+
+Lemma not_notfound : ~ In VMDK_NOTFOUND VMDK_SUBFORMATS.
+Proof. intros [H|[H|[]]]; discriminate H. Qed.
+
+Lemma dparse_ok xA D : v_vmdktype xA = VMDK_NOTFOUND -> descriptor_ok (dparse xA D) ->
+  is_ascii_text D = true /\ dparse xA D = mkVx (Some (text_of D)) (vmdk_type_of (text_of D)).
+Proof.
+  intros Hx Hok. unfold dparse in *. change VMDK_NUL with [0] in *.
+  assert (Hdd : match find [0] D with Some i => ntake i D | None => D end = up_to_nul D).
+  { unfold up_to_nul. destruct (find [0] D); [apply ntake_btake|reflexivity]. }
+  rewrite Hdd in *. unfold is_ascii_text. change (fun c => c <? 128) with is_ascii.
+  destruct (forallb is_ascii (up_to_nul D)); cbn [negb] in *.
+  - split; reflexivity.
+  - exfalso. destruct Hok as [t [_ [_ [Hty _]]]]. rewrite Hx in Hty. exact (not_notfound Hty).
+Qed.
+
+Theorem vmdk_sparse_pass_implies cs :
+  let b := concat cs in
+  64 <= blen b -> hdr_pre b ->
+  safety (fst (Insp_All.run F_vmdk cs)) = Pass ->
+  vmdk_desc_sec b * 512 = 512 /\
+  512 + dsize b <= blen b /\
+  is_ascii_text (bslice 512 (dsize b) b) = true /\
+  descriptor_ok (mkVx (Some (text_of (bslice 512 (dsize b) b))) (vmdk_type_of (text_of (bslice 512 (dsize b) b)))) /\
+  (vmdk_gd b = gd_at_end -> 1536 <= blen b /\ footer_ok b (bslice (blen b - 1536) 1536 b)).
+Proof.
+  intros b Hlen Hpre Hacc.
+  rewrite run_vmdk in Hacc. unfold run_fmt in Hacc. rewrite init_A in Hacc.
+  assert (HA0 : InvA [] (stA [] [] (mkVx None VMDK_NOTFOUND))).
+  { exists [], (mkVx None VMDK_NOTFOUND). split; [reflexivity|]. split; [rewrite blen_nil; lia|]. split; [reflexivity|]. split; reflexivity. }
+  destruct (N.eq_dec (vmdk_desc_sec b * 512) 512) as [Hsec|Hsec].
+  2:{ destruct (run_misplaced b Hlen Hpre Hsec cs [] _ eq_refl HA0) as [s' [e [He [Hty Hchk]]]]. rewrite He in Hacc.
+      cbn [fst safety] in Hacc. exfalso. revert Hacc. apply vmdk_other_type_never_passes.
+      - exact Hchk.
+      - cbn [Insp_Engine.finish i_ext]. rewrite Hty. exact not_notfound. }
+  split; [exact Hsec|].
+  destruct (run_valid b Hlen Hpre Hsec cs [] _ eq_refl (or_introl HA0)) as [s' [He [HA|HB]]].
+  { destruct HA as [p [x [_ [Hs _]]]]. lia. }
+  rewrite He in Hacc. cbn [fst] in Hacc.
+  destruct HB as [hd [fo [xA [-> [Hl [Hp [Hok [Hfo [Hfi Hx]]]]]]]]].
+  destruct (prefix_fields hd b Hp Hl) as [F1 [F2 [F3 [F4 F5]]]].
+  assert (Hsize : dsize hd = dsize b) by (unfold dsize; rewrite F4; reflexivity).
+  rewrite Hsize in *. set (size := dsize b) in *. set (D := bslice 512 size b) in *.
+  cbn [safety] in Hacc. rewrite finish_stB in Hacc. pose proof Hacc as Hsafe. clear Hacc.
+  apply safety_pass_iff in Hsafe. destruct Hsafe as [Hc [_ Hk]].
+  (* completeness: the descriptor region is full (and the footer region, when there is one) *)
+  assert (Hdc : dcomplete size b = true).
+  { unfold Insp_Engine.complete, finB in Hc. cbn [i_regs] in Hc.
+    destruct fo as [[off fd]|]; cbn [forallb snd] in Hc; rewrite rcomplete_dreg in Hc; unfold dcomplete; lia. }
+  rewrite Hdc in Hk.
+  (* the descriptor check *)
+  assert (Hd : descriptor_ok (dparse xA D)).
+  { apply (check_descriptor_iff (finB hd fo size b (dparse xA D))).
+    apply (Hk K_descriptor). unfold finB. cbn [i_checks]. destruct fo; left; reflexivity. }
+  destruct (dparse_ok xA D Hx Hd) as [Hascii Hpx]. rewrite Hpx in Hd.
+  assert (Hfull : 512 + size <= blen b).
+  { apply dcomplete_iff in Hdc. destruct Hdc as [H0|H]; [|exact H]. exfalso.
+    destruct Hd as [t [Ht [Hne _]]]. cbn [v_desc_text] in Ht. injection Ht as <-. apply Hne.
+    unfold D. rewrite H0. reflexivity. }
+  split; [exact Hfull|]. split; [exact Hascii|]. split; [exact Hd|].
+  (* the footer check *)
+  intros Hgd. unfold fo_matches, wants_footer in Hfo. rewrite F5, Hgd, N.eqb_refl in Hfo.
+  destruct fo as [[off fd]|]; [|discriminate Hfo].
+  destruct Hfi as [p0 [Hp0 [Hfd Hoff]]].
+  assert (Hflen : blen fd = 1536).
+  { unfold Insp_Engine.complete, finB in Hc. cbn [i_regs forallb snd] in Hc.
+    unfold rcomplete at 2 in Hc. unfold base_complete in Hc. cbn [set_fin freg r_end r_min r_len r_data r_fin] in Hc.
+    rewrite flen_blen in Hc. lia. }
+  assert (Hy : 1536 <= blen (bskip p0 b)).
+  { pose proof (nlast_len 1536 (bskip p0 b) ltac:(lia)) as H. rewrite <- Hfd, flen_blen, Hflen in H. lia. }
+  rewrite blen_bskip in Hy.
+  split; [lia|].
+  assert (Hfd' : fd = bslice (blen b - 1536) 1536 b).
+  { rewrite Hfd. rewrite nlast_bskip by lia. rewrite blen_bskip, bskip_bskip.
+    replace (p0 + (blen b - p0 - 1536)) with (blen b - 1536) by lia.
+    unfold bslice. symmetry. apply btake_all. rewrite blen_bskip. lia. }
+  assert (Hfok : footer_ok hd fd).
+  { apply (check_footer_iff (finB hd (Some (off, fd)) size b (dparse xA D)) (hreg hd) (set_fin (freg off fd) true));
+      [reflexivity|reflexivity|exact Hl|exact Hflen|].
+    apply (Hk K_footer). right. left. reflexivity. }
+  rewrite <- Hfd'. unfold footer_ok in *. rewrite <- F1, <- F2, <- F3, <- F4. exact Hfok.
+Qed.
